@@ -34,7 +34,8 @@ from engines import targets_c20 as T
 from vlib.core import HarnessError, bad, inconclusive, ok
 
 LEVEL = 'exploration'
-RULE = ('shared: histories of get/copy/append/read/drop/forked-client steps over '
+RULE = ('affine: RLock / Condition proxies used by a forked child (inherited or in its Process args) whose script of acquire / release / notify / build-another-proxy / drop-it steps is replayed on a local threading object; non-trivial when another proxy is dropped while the lock is held. '
+        'shared: histories of get/copy/append/read/drop/forked-client steps over '
         'referents that several proxies share through a registered callable (the '
         'remote-manager pattern); non-trivial when one of several proxies to the '
         'same referent is dropped or a client uses it while another proxy lives. '
@@ -1550,11 +1551,12 @@ def execute_auth(case):
 
 # ---------------------------------------------------------------------------
 
-from engines import c20handoff, c20shared
+from engines import c20affine, c20handoff, c20shared
 
 PARTS = {'hist': execute_hist, 'conc': execute_conc,
          'registered': execute_registered, 'auth': execute_auth,
-         'shared': c20shared.execute, 'handoff': c20handoff.execute}
+         'shared': c20shared.execute, 'handoff': c20handoff.execute,
+         'affine': c20affine.execute}
 
 
 def _rounds(ctx, part, make_strategy, execute, n, budget, **kw):
@@ -1600,6 +1602,10 @@ def run(ctx):
         # a proxy handed to a child in its Process args, every start method
         _rounds(ctx, 'handoff', c20handoff.cases, c20handoff.execute,
                 4 if q else 30, 120, shrink_budget=8 if q else 30)
+        # thread-affine referents (RLock, Condition) used from a forked child
+        # that builds and drops other proxies while it holds the lock
+        _rounds(ctx, 'affine', c20affine.cases, c20affine.execute,
+                4 if q else 30, 90, shrink_budget=8 if q else 30)
         ctx.notes['managers_started'] = _M['started']
     finally:
         _shutdown_manager()
